@@ -200,7 +200,37 @@ fn gen_direct(rng: &mut Rng, strs: &StrCfg, well_formed: bool) -> PReg {
         }
         return PReg { types };
     }
+    // lean registries: no names, type names or docs anywhere, so that every
+    // element has its minimal encoded size
+    let lean = rng.permille(150);
+    if lean {
+        probe("frame_source.lean_registry");
+    }
     for i in 0..n {
+        if lean {
+            let mut t = tablesim::gen_ptype(rng, strs, n.saturating_sub(1), if well_formed { 0 } else { 150 });
+            t.docs.clear();
+            t.path.truncate(1);
+            match &mut t.def {
+                crate::ptype::PDef::Composite(fs) => fs.iter_mut().for_each(|f| {
+                    f.name = None;
+                    f.type_name = None;
+                    f.docs.clear();
+                }),
+                crate::ptype::PDef::Variant(vs) => vs.iter_mut().for_each(|v| {
+                    v.docs.clear();
+                    v.fields.iter_mut().for_each(|f| {
+                        f.name = None;
+                        f.type_name = None;
+                        f.docs.clear();
+                    })
+                }),
+                _ => {}
+            }
+            let id = if well_formed || rng.permille(700) { i } else { tablesim::gen_id(rng, n + 2, 300) };
+            types.push((id, t));
+            continue;
+        }
         if n < 20 && rng.permille(8) {
             probe("frame_source.bulk_collection");
             types.push((i, tablesim::gen_bulk_ptype(rng, n.saturating_sub(1))));
@@ -977,11 +1007,17 @@ pub fn execute(scn: &WireScenario, mask: Mask) -> Result<WireResult, Violation> 
     match r {
         Ok(Ok(())) => Ok(res),
         Ok(Err(v)) => Err(v),
-        Err(msg) => Err(Violation {
-            property: if mask.has("C14") && !mask.has("C07") { "C14" } else { "C07" }.to_string(),
+        // decode calls catch their own panics; what arrives here is a panic in
+        // encode (C07) or while frames were turned into library values
+        Err(msg) if mask.has("C07") || mask.has("C14") => Err(Violation {
+            property: if mask.has("C07") { "C07" } else { "C14" }.to_string(),
             clause: core::panic_clause(&msg),
             detail: format!("panic outside a decode call: {}", msg),
         }),
+        Err(_) => {
+            probe("codec_panicked_under_a_check_that_does_not_answer_for_it");
+            Ok(res)
+        }
     }
 }
 
@@ -1030,6 +1066,16 @@ fn execute_inner(scn: &WireScenario, mask: Mask, res: &mut WireResult) -> Check 
                     format!("frames {} and {} differ but share an encoding", i, j)
                 })?;
             }
+        }
+    }
+
+    // ---- each frame alone: the input ends exactly where the value ends ----------
+    if mask.has("C07") {
+        for (k, reg) in libs.iter().enumerate() {
+            for reader in [&ReaderSpec::Slice, &ReaderSpec::NoLen] {
+                check_round_trip(mask, &format!("frame {} alone", k), reg, &encoded[k], reader)?;
+            }
+            probe("checks.frame_decoded_alone");
         }
     }
 
@@ -1121,7 +1167,7 @@ fn execute_inner(scn: &WireScenario, mask: Mask, res: &mut WireResult) -> Check 
             if !before.well_formed() {
                 continue;
             }
-            let Ok(mut reg) = PortableRegistry::decode(&mut &encoded[k][..]) else { continue };
+            let Ok(Ok(mut reg)) = core::catch(|| PortableRegistry::decode(&mut &encoded[k][..])) else { continue };
             let len = before.len();
             let accepted: Vec<u32> = (0..len as u32).filter(|&id| keep.accepts(id, len)).collect();
             match core::catch(|| reg.retain(|id| keep.accepts(id, len))) {
@@ -1147,7 +1193,13 @@ fn execute_inner(scn: &WireScenario, mask: Mask, res: &mut WireResult) -> Check 
             }
         }
     }
-    if !(mask.has("C14") || mask.has("C07")) {
+    // Fault cases run under C14 only.  (The plan had their survivors feed C07's
+    // population; but a fault case that kills the process - an unbounded
+    // allocation, say - would then be blamed on C07, which does not speak about
+    // corrupted input.  C07 draws its ill-formed registries from the direct
+    // generator instead; survivors are still round-tripped when both
+    // properties are checked together, as the determinism self-test does.)
+    if !mask.has("C14") {
         return Ok(());
     }
 
@@ -1398,6 +1450,9 @@ pub fn sweep_cases(len: usize, sites: Option<&[layout::Site]>) -> Vec<Case> {
     for at in 0..len {
         for bit in 0..8 {
             out.push(Case::Scale { faults: vec![Fault::FlipBit(at, bit)], reader: ReaderSpec::Slice });
+            // the codec sizes its buffers differently when the input does not
+            // know its length: flip every bit on that path as well
+            out.push(Case::Scale { faults: vec![Fault::FlipBit(at, bit)], reader: ReaderSpec::NoLen });
         }
     }
     for at in 0..=len {
@@ -1408,7 +1463,9 @@ pub fn sweep_cases(len: usize, sites: Option<&[layout::Site]>) -> Vec<Case> {
     if let Some(sites) = sites {
         for s in sites {
             for f in rewrites_of(s) {
-                out.push(Case::Scale { faults: vec![f], reader: ReaderSpec::Slice });
+                out.push(Case::Scale { faults: vec![f.clone()], reader: ReaderSpec::Slice });
+                out.push(Case::Scale { faults: vec![f.clone()], reader: ReaderSpec::NoLen });
+                out.push(Case::Scale { faults: vec![f], reader: ReaderSpec::Io(plain.clone()) });
             }
         }
     }
@@ -1470,11 +1527,11 @@ pub fn sweep_scenario(frame: &PReg) -> Result<Option<WireScenario>, String> {
     probe("sweep.frames_swept");
     probe_n("sweep.frame_bytes_swept", bytes.len() as u64);
     probe_n("sweep.single_faults.truncation_points_x2_readers", 2 * bytes.len() as u64);
-    probe_n("sweep.single_faults.bit_flips", 8 * bytes.len() as u64);
+    probe_n("sweep.single_faults.bit_flips_x2_readers", 16 * bytes.len() as u64);
     probe_n("sweep.single_faults.io_error_offsets_x6_kinds", 6 * (bytes.len() as u64 + 1));
     probe_n(
-        "sweep.single_faults.targeted_rewrites",
-        n_scale_cases as u64 - 10 * bytes.len() as u64 - 6 * (bytes.len() as u64 + 1),
+        "sweep.single_faults.targeted_rewrites_x3_readers",
+        n_scale_cases as u64 - 18 * bytes.len() as u64 - 6 * (bytes.len() as u64 + 1),
     );
     if let Some(s) = &sites {
         probe_n("sweep.fields_located_by_aiming_parser", s.len() as u64);
